@@ -60,6 +60,7 @@ REVERT_EXPECT: Dict[str, List[Tuple[str, str]]] = {
     "6bef8db": [("C12", "K8.spin-ordering"), ("C03", "K8.spin-ordering")],
     "23a8686": [("C14", "K9.truncation-bound")],
     "d569ba9": [("C15", "K8.rebuild-agreement")],
+    "c5c3f8c": [("C13", "K11.protocol")],
 }
 
 
@@ -111,9 +112,19 @@ def _one(job) -> dict:
                     res["detail"] = f"revert diff {Path(diff).name} does not apply: " + (r.stdout + r.stderr)[-200:]
                     return res
         else:
-            for rel, old, new in payload:
+            for edit in payload:
+                rel, old, new = edit[:3]
                 p = d / rel
                 s = p.read_text()
+                if len(edit) == 4:
+                    # (rel, old, new, (k, n)): replace the k-th of exactly n occurrences
+                    k, n_occ = edit[3]
+                    if s.count(old) != n_occ:
+                        res["detail"] = f"anchor text for {name} occurs {s.count(old)} times in {rel}, expected {n_occ}"
+                        return res
+                    parts = s.split(old)
+                    p.write_text(old.join(parts[:k + 1]) + new + old.join(parts[k + 1:]))
+                    continue
                 if s.count(old) != 1:
                     res["detail"] = f"anchor text for {name} occurs {s.count(old)} times in {rel}"
                     return res
